@@ -249,6 +249,9 @@ def build(tape, prop, tier):
     elif prop == "C11" and tape.chance(0.04):
         s["motif"] = "arveto"
         apply_motif(s, tape)
+    elif prop in ("C08", "C04") and tape.chance(0.05):
+        s["motif"] = "liqreject"
+        apply_motif(s, tape)
     return s
 
 
@@ -263,6 +266,32 @@ def apply_motif(s, tape):
     qp = s["prec"][QUOTE]
     cond = dict(interest_symbol=QUOTE, interest_percentage="0", interest_period=86400, min_interest="0",
                 margin_requirement="0")
+    if s["motif"] == "liqreject":
+        # a market buy accepted on the last close, killed for lack of funds by a gap-up bar whose liquidity it would have
+        # used up, followed in the same bar by a small order of the same pair that fits the untouched liquidity
+        b0 = s["bases"][0]
+        s["prec"][b0] = 2
+        s["prec"][QUOTE] = 2
+        s["pair_info"] = {}
+        s["fee"] = dict(kind="none", pct="0", min="0")
+        s["liq"] = dict(kind="vs", limit="100", impact="0")
+        s["lend"] = None
+        s["hp"] = False
+        s["offgrid_init"] = False
+        s["init"] = {QUOTE: "1000.00", b0: "5.00"}
+        k = 1 + tape.draw(3)
+        rows = [dict(k=j, o=10000, h=10000, l=10000, c=10000, v="50") for j in range(k + 4)]
+        up = 11000 + 100 * tape.draw(20)
+        rows[k + 1] = dict(k=k + 1, o=up, h=up, l=up, c=up, v="10")
+        s["bars"][0] = rows
+        s["ts_mode"] = "shared"
+        s["jobs"] = []
+        s["oe_every"] = 0
+        s["sig_every"] = 0
+        s["scripts"] = {kk: v for kk, v in s["scripts"].items() if not kk.startswith("bar:0:")}
+        second = order_op(otype=tape.choice(["market", "stop"]), side="sell", amt_kind="abs", abs=str(D(1 + tape.draw(4))), stp=8)
+        s["scripts"][f"bar:0:{k}"] = [order_op(otype="market", side="buy", amt_kind="abs", abs="10.00"), second]
+        return
     if s["motif"] == "arveto":
         # two loans in the base symbol, the older one with a lot of accrued interest, a third loan elsewhere, and an
         # auto-repay buy that is partially filled and then cancelled while the account's equity is just above what the
